@@ -348,13 +348,18 @@ func (a *VersionedAttestation) UnmarshalSSZ(b []byte) error {
 	if err != nil {
 		// Previously a bug was introduced where validator index was not marshaled.
 		// Ensure backwards compatibility with nodes that have not yet updated to the new fixed version.
-		if !errors.Is(err, ssz.ErrOffset) {
-			return errors.Wrap(err, "unmarshal VersionedAttestation")
-		}
+		// The encoding without validator index is also what MarshalSSZTo writes for a nil validator index.
+		// Its bytes 16..20 are the low bits of the attestation's slot, so it can pass the offset check above
+		// (slot 20) and only fail later: fall back whenever the encoding with validator index does not parse.
+		var errLegacy error
 
-		version, err = unmarshalSSZVersioned(b, a.sszValFromVersion)
-		if err != nil {
-			return errors.Wrap(err, "unmarshal VersionedAttestation without validator index")
+		version, errLegacy = unmarshalSSZVersioned(b, a.sszValFromVersion)
+		if errLegacy != nil {
+			if !errors.Is(err, ssz.ErrOffset) {
+				return errors.Wrap(err, "unmarshal VersionedAttestation")
+			}
+
+			return errors.Wrap(errLegacy, "unmarshal VersionedAttestation without validator index")
 		}
 	}
 
